@@ -71,6 +71,8 @@ func cmdSelftest(args []string) int {
 		ref := map[uint64]sig{}
 		diverging := map[uint64]bool{}
 		contentOnly := map[uint64]bool{}
+		concurrent := map[uint64]bool{}
+		orderDependent := map[uint64]bool{}
 		execs := 0
 		for _, procs := range []string{"1", "4", "16"} {
 			for rep := 0; rep < 2; rep++ {
@@ -86,12 +88,19 @@ func cmdSelftest(args []string) int {
 						vs = append(vs, v.Class)
 					}
 					s := sig{r.Fingerprint, r.ContentHash, strings.Join(vs, ",")}
+					if r.Probes["concurrent-dispatch"] > 0 {
+						concurrent[r.Seed] = true
+					}
 					if old, ok := ref[r.Seed]; !ok {
 						ref[r.Seed] = s
 					} else if old != s {
-						if old.fp == s.fp && old.verdict == s.verdict {
+						switch {
+						case concurrent[r.Seed]:
+							// several deliveries into one node in one step: the order inside the step is the Go scheduler's
+							orderDependent[r.Seed] = true
+						case old.fp == s.fp && old.verdict == s.verdict:
 							contentOnly[r.Seed] = true
-						} else {
+						default:
 							diverging[r.Seed] = true
 							fmt.Printf("selftest: %s seed %d diverged at GOMAXPROCS=%s: %v vs %v\n", prop, r.Seed, procs, old, s)
 						}
@@ -101,7 +110,7 @@ func cmdSelftest(args []string) int {
 		}
 		os.Unsetenv("VERIF_WORKER_GOMAXPROCS")
 		b.cleanup()
-		fmt.Printf("selftest determinism: %s: %d seeds x %d executions; schedule/verdict divergences: %d; content-only differences: %d\n", prop, len(ref), execs, len(diverging), len(contentOnly))
+		fmt.Printf("selftest determinism: %s: %d seeds x %d executions; serial runs: %d, schedule/verdict divergences: %d, content-only differences: %d; concurrent-dispatch runs: %d, of which order-dependent: %d\n", prop, len(ref), execs, len(ref)-len(concurrent), len(diverging), len(contentOnly), len(concurrent), len(orderDependent))
 		bad += len(diverging)
 	}
 	if bad > 0 {
